@@ -3,7 +3,7 @@ import vpl, json
 from concurrent.futures import ThreadPoolExecutor
 
 LEVEL = "proof"
-LIBS = ["CoinFlipLemmas.vo"]
+LIBS = ["CoinFlipLemmas.vo", "CoinFlipNLemmas.vo"]
 
 def par_correspond(res, pid, out, drv, nchunks=14):
     """vpl.correspond with the records split over parallel driver processes (the extracted arithmetic is slow)"""
